@@ -402,6 +402,15 @@ def run(ctx, facts):
     sg = signature_rules(ctx, facts)
     ctx.floor("C11 create_signature instances", sg, 4)
     resetbefore(ctx, facts)
+    # the race value of a pair must not depend on what the registers answered to its earlier draws: the draw counter that
+    # indexes the spacing table advances once per draw, unconditionally
+    from . import C01, C13
+    ctx.rule("BETAS", "the race adds self.g[counter] * draw and advances the counter exactly once per draw, whatever the store answered: "
+                      "the race values of a pair depend on its generator only")
+    C01.betas_use(ctx, facts, [(POM + "hash_set", "g")])
+    # histories: a second hash_set on the same instance starts from nothing the first one left
+    ctx.rule("RESET-prefix", C13.RULES["RESET-prefix"])
+    C13.require_reset_prefix(ctx, facts)
     from . import C02
     MT = "maxvaluetrack::MaxValueTracker::<V>::"
     shapes = {"get_max_value": "self.values[self.last_index]", "is_update_possible": "(value < self.values[self.last_index])"}
